@@ -212,6 +212,18 @@ def run(ctx):
                 ctx.fail("an unreachable document was fetched", meta, u, "only documents reachable from the root")
         counts = collections.Counter(store.asked)
         ctx.dist["max fetches of one document=%d" % max(counts.values())] += 1
+        if plan.get("wsdl_diamond"):
+            ctx.dist["wsdl:import diamond"] += 1
+        # each Definitions document is fetched once, and builds its schema once with its own memo: no document
+        # can be needed more often than once per Definitions (+ once as a Definitions itself)
+        n_defs = sum(1 for u, dd in docs.items() if b"<wsdl:definitions" in dd[:400]) + \
+            sum(1 for b_, pl in plan["blocks"].items() if pl[0] == "doc" and pl[2] == "wimport")
+        for u, cnt in counts.items():
+            if "schemas.xmlsoap.org/soap/encoding" in u:
+                continue
+            if cnt > n_defs + 1 or (n_defs == 1 and cnt > 1):
+                ctx.fail("a document was fetched more often than once per schema build", meta, {u: cnt},
+                         "at most %d" % (n_defs + 1), plan=plan)
         fp = fingerprint(client, I, ident)
         if fp != ref_fp:
             diff = sorted(k for k in set(fp) | set(ref_fp) if fp.get(k) != ref_fp.get(k))
@@ -229,6 +241,7 @@ def run(ctx):
         model = sorted(urls[i] for i in ans["all"]) if isinstance(ans, dict) and "all" in ans else ans
         ctx.compare("loader-fetches-model-vs-suds", meta, asked, model)
     included_needs_includer(ctx)
+    relative_include_shapes(ctx)
     if metas:
         ctx.sample({"input": metas[0][0], "fetched": metas[0][1]})
 
@@ -313,6 +326,49 @@ def d35_load():
          % (IF.WSDLNS, IF.SOAPNS, D35_SCHEMA_MAIN)).encode()
     return load("http://docs.invalid/root.wsdl", {}, {"http://docs.invalid/root.wsdl": w,
                                                        "http://docs.invalid/part.xsd": D35_PART})
+
+
+def relative_include_shapes(ctx):
+    """One Definitions, schema documents linked by RELATIVE includes in a diamond and in a cycle: every
+    document is fetched exactly once (schema_build_fetches_at_most_once) and the load terminates."""
+    xs = 'xmlns:xsd="http://www.w3.org/2001/XMLSchema" xmlns:t="urn:t" targetNamespace="urn:t" elementFormDefault="qualified"'
+    def doc(includes, body):
+        return ('<xsd:schema %s>%s%s</xsd:schema>' % (xs, "".join('<xsd:include schemaLocation="%s"/>' % i
+                                                                    for i in includes), body)).encode()
+    base = "http://docs.invalid/s/"
+    shapes = {
+        "diamond": {"main.xsd": doc(["sub/a.xsd", "sub/b.xsd"], '<xsd:element name="f" type="t:C"/>'),
+                    "sub/a.xsd": doc(["../common/c.xsd"], '<xsd:element name="a" type="t:C"/>'),
+                    "sub/b.xsd": doc(["../common/c.xsd"], '<xsd:element name="b" type="t:C"/>'),
+                    "common/c.xsd": doc([], '<xsd:complexType name="C"><xsd:sequence><xsd:element name="v" '
+                                            'type="xsd:int"/></xsd:sequence></xsd:complexType>')},
+        "cycle": {"main.xsd": doc(["sub/a.xsd"], '<xsd:element name="f" type="xsd:int"/>'),
+                  "sub/a.xsd": doc(["b.xsd"], '<xsd:element name="a" type="xsd:int"/>'),
+                  "sub/b.xsd": doc(["a.xsd", "../main.xsd"], '<xsd:element name="b" type="xsd:int"/>')},
+    }
+    for name, files in shapes.items():
+        w = ('<?xml version="1.0"?><wsdl:definitions targetNamespace="urn:w" xmlns:wsdl="%s" xmlns:w="urn:w" '
+             'xmlns:t="urn:t" xmlns:soap="%s"><wsdl:types><xsd:schema xmlns:xsd="http://www.w3.org/2001/XMLSchema" '
+             'targetNamespace="urn:stub"><xsd:import namespace="urn:t" schemaLocation="s/main.xsd"/></xsd:schema>'
+             '</wsdl:types><wsdl:message name="fIn"><wsdl:part name="p" element="t:f"/></wsdl:message>'
+             '<wsdl:portType name="PT"><wsdl:operation name="f"><wsdl:input message="w:fIn"/></wsdl:operation>'
+             '</wsdl:portType><wsdl:binding name="B" type="w:PT"><soap:binding style="document" '
+             'transport="http://schemas.xmlsoap.org/soap/http"/><wsdl:operation name="f"><soap:operation '
+             'soapAction="f"/><wsdl:input><soap:body use="literal"/></wsdl:input></wsdl:operation></wsdl:binding>'
+             '<wsdl:service name="S"><wsdl:port name="P" binding="w:B"><soap:address location="http://x.invalid/"/>'
+             '</wsdl:port></wsdl:service></wsdl:definitions>' % (IF.WSDLNS, IF.SOAPNS)).encode()
+        net = {"http://docs.invalid/root.wsdl": w}
+        net.update({base + k: v for k, v in files.items()})
+        meta = {"stream": "relative-includes", "shape": name}
+        ctx.case(common.canon(meta), True)
+        client, err, store, tr = load("http://docs.invalid/root.wsdl", {}, net)
+        if err is not None:
+            ctx.fail("a graph of relative includes does not load", meta, err, "a client")
+            continue
+        counts = collections.Counter(tr.opened)
+        if sorted(counts) != sorted(net) or any(c != 1 for c in counts.values()):
+            ctx.fail("documents linked by relative includes are not fetched exactly once each", meta,
+                     dict(counts), {u: 1 for u in net})
 
 
 def included_needs_includer(ctx):
